@@ -14,8 +14,19 @@ for d in "$@"; do
   if (cd $WT && cargo test --offline --test demo_seeded >/tmp/confirm_$id.clean.log 2>&1); then res="$res clean-demo=pass"; else res="$res clean-demo=FAIL"; fi
   git -C $WT apply $d/patch.diff
   (cd $WT && cargo test --offline --no-fail-fast >/tmp/confirm_$id.patched.log 2>&1)
-  suite_fail=$(grep -E "^test .* FAILED" /tmp/confirm_$id.patched.log | grep -v "demo" | wc -l)
-  demo_fail=$(grep -A200 "Running tests/demo_seeded.rs" /tmp/confirm_$id.patched.log | grep -E "^test result: FAILED|^test .* FAILED" | head -1 | wc -l)
+  read suite_fail demo_fail <<< $(python3 - /tmp/confirm_$id.patched.log <<'PY'
+import re, sys
+pl = open(sys.argv[1]).read()
+sf = 0; df = 0
+for s in re.split(r'\n\s+Running ', pl)[1:]:
+    head = s.split('\n', 1)[0]
+    m = re.search(r'test result: (\w+)\. (\d+) passed; (\d+) failed', s)
+    if not m: continue
+    if 'demo_seeded' in head: df = 1 if int(m.group(3)) > 0 else 0
+    else: sf += int(m.group(3))
+print(sf, df)
+PY
+)
   compiled=$(grep -c "error\[E\|could not compile" /tmp/confirm_$id.patched.log)
   res="$res compile_errors=$compiled suite_failures=$suite_fail demo_fails_with_patch=$demo_fail"
   echo "$res"
